@@ -284,8 +284,8 @@ fn run_timeout_s(tier: Tier) -> u64 {
 
 struct Watchdog {
     last: std::sync::Arc<std::sync::atomic::AtomicU64>,
-    done: std::sync::Arc<std::sync::atomic::AtomicBool>,
     fired: std::sync::Arc<std::sync::atomic::AtomicBool>,
+    stop: std::sync::mpsc::Sender<()>,
     t0: Instant,
     handle: Option<std::thread::JoinHandle<()>>,
 }
@@ -295,14 +295,14 @@ impl Watchdog {
         use std::sync::atomic::{AtomicBool, AtomicU64, Ordering};
         use std::sync::Arc;
         let last = Arc::new(AtomicU64::new(0));
-        let done = Arc::new(AtomicBool::new(false));
         let fired = Arc::new(AtomicBool::new(false));
         let t0 = Instant::now();
-        let (l, d, f) = (last.clone(), done.clone(), fired.clone());
+        let (stop, rx) = std::sync::mpsc::channel::<()>();
+        let (l, f) = (last.clone(), fired.clone());
         let handle = std::thread::spawn(move || loop {
-            std::thread::sleep(std::time::Duration::from_millis(500));
-            if d.load(Ordering::SeqCst) {
-                break;
+            match rx.recv_timeout(std::time::Duration::from_millis(500)) {
+                Err(std::sync::mpsc::RecvTimeoutError::Timeout) => {}
+                _ => break, // told to stop, or the owner went away
             }
             let now = t0.elapsed().as_secs();
             if now.saturating_sub(l.load(Ordering::SeqCst)) > limit_s {
@@ -313,8 +313,8 @@ impl Watchdog {
         });
         Watchdog {
             last,
-            done,
             fired,
+            stop,
             t0,
             handle: Some(handle),
         }
@@ -324,7 +324,7 @@ impl Watchdog {
     }
     /// Stops the watchdog; true if it had to kill the process.
     fn finish(mut self) -> bool {
-        self.done.store(true, std::sync::atomic::Ordering::SeqCst);
+        let _ = self.stop.send(());
         if let Some(h) = self.handle.take() {
             let _ = h.join();
         }
@@ -442,6 +442,7 @@ pub struct BatchResult {
     pub distinct: u64,
     pub samples: Vec<serde_json::Value>,
     pub harness_errors: Vec<String>,
+    pub harness_notes: Vec<String>,
 }
 
 /// Runs runs `0..total` of `prop` on `workers` processes.
@@ -470,7 +471,8 @@ pub fn run_batch(exe: &Path, prop: &str, tier: Tier, seed: u64, total: u64, work
                     Some((r, _)) => {
                         start = r + workers;
                         part += 1;
-                        if start >= total {
+                        // a lane whose workers keep dying is given up after 40 restarts (its first deaths are reported)
+                        if start >= total || part > 40 {
                             break;
                         }
                     }
@@ -490,6 +492,7 @@ pub fn run_batch(exe: &Path, prop: &str, tier: Tier, seed: u64, total: u64, work
         distinct: 0,
         samples: vec![],
         harness_errors: vec![],
+        harness_notes: vec![],
     };
     let mut fps: Vec<u64> = vec![];
     let mut deaths: Vec<(u64, String)> = vec![];
@@ -518,6 +521,13 @@ pub fn run_batch(exe: &Path, prop: &str, tier: Tier, seed: u64, total: u64, work
         }
     }
     // a death is confirmed by re-executing that run alone in a fresh process
+    // confirm at most 24 deaths individually (lowest run indices first); a change that kills thousands of runs
+    // does not need thousands of confirmations
+    deaths.sort();
+    if deaths.len() > 24 {
+        br.harness_notes.push(format!("{} further worker deaths were not re-executed individually", deaths.len() - 24));
+        deaths.truncate(24);
+    }
     for (r, desc) in deaths {
         let child = Command::new(&exe)
             .args(["one", prop, tier.name(), &seed.to_string(), &r.to_string()])
@@ -754,6 +764,9 @@ pub fn check_main(prop: &str, tier: Tier, extra: &dyn Fn(Tier, u64, u64, &BTreeM
             found.push((pname.clone(), r, case, v));
         }
         harness_errors.extend(br.harness_errors.iter().map(|e| format!("[{pname}] {e}")));
+        for n in &br.harness_notes {
+            println!("note [{pname}]: {n}");
+        }
         for (k, v) in br.counters {
             *counters.entry(k).or_insert(0) += v;
         }
